@@ -122,7 +122,7 @@ class Ctx:
                 raise AnalysisError('%s: %s has no loop #%d any more' % (rule, f.where, region))
             code, spec_paths = cl[region].paths, sl[region].paths
         st: dict = {}
-        mism = compare_paths(code, spec_paths, view, st)
+        mism = compare_paths(code, spec_paths, view, st, in_loop=region is not None)
         self.stats['pairs_compared'] += st.get('pairs', 0)
         self.stats['feasible_pairs'] += st.get('feasible_pairs', 0)
         n = max(1, st.get('feasible_pairs', 0))
